@@ -130,7 +130,10 @@ def oracle(chk, quick):
             m = rng.choice([0.5, 0.75, 1.5, 2.0, rng.uniform(0.4, 2.5)])
             sc = c10.Scalars(rng, it, wvl, d1, m, z)
             (o_w, o_1, o_2, o_z), (wvl, d1, d2, z) = sc.obj, sc.val
-            tol = c10.LOWP_TOL if sc.lowp else c10.C64_TOL if c64 else TOL
+            # a complex64 field is promoted to double precision by angularSpectrum's first product (observed: the laws hold to 6e-16
+            # for such fields, as for complex128 ones), so the group laws are asked to rounding for it too; only single-precision
+            # SCALARS (k, the magnification … evaluated in float32) get the wide tolerance
+            tol = c10.LOWP_TOL if sc.lowp else TOL
             scl = float(numpy.abs(U).max())
             rp = dict(N=n, wvl=wvl, d1=d1, z=z, data=kind, field=cls, scalar_kinds=sc.label(), seed=chk.seed, U=c10._small(U))
             chk.oracle_cases += 1
